@@ -14,7 +14,8 @@ Everything is decided from the fact base; no libosmium code is run.  Instances a
         r == value whenever min <= value <= max.
  K3-constants-agree        |earth_radius_for_epsg3857 * PI - max_coordinate_epsg3857| < 0.01 m evaluated from the literals;
         PI is pi to double precision; the radius is the WGS84 semi-major axis 6378137; MERCATOR_MAX_LAT projected with the
-        canonical formula R*ln(tan(pi/4 + lat/2)) lies within 0.01 m of max_coordinate (the square is closed).
+        canonical formula R*ln(tan(pi/4 + lat/2)) lies within half a 1e-7 degree step (6.5 cm in y) of max_coordinate, i.e. it is the
+        representable latitude nearest to the edge of the square.
  K4-tile-ctor-uses-conversions   Tile(zoom, Location): x = mercx_to_tilex(zoom, c.x), y = mercy_to_tiley(zoom, c.y) with
         c = lonlat_to_mercator(location), z = zoom;  Tile(zoom, Coordinates): the same on the argument;  Tile(zoom, tx, ty)
         stores (tx, ty, zoom);  lonlat_to_mercator builds Coordinates{lon_to_x(c.x), lat_to_y(c.y)}.
@@ -29,8 +30,7 @@ value outside the int32 range happens BEFORE the clamp and is not covered by it)
 import math
 
 from .. import ordertype as OT
-from ..c17_util import decl_of, float_value, local_or_param, lvalue_key, param_index, peel, pn, this_field, writes
-from ..flow import path_search
+from ..c17_util import decl_of, float_value, param_index, peel, this_field, writes
 
 EXPLANATION = (
     'Decided: every tile number returned by mercx_to_tilex / mercy_to_tiley is the result of detail::clamp(v, 0, num_tiles_in_zoom(zoom) - 1) '
@@ -283,9 +283,13 @@ def constants(fb, R):
         lat = vals[MAXLAT]
         ok = 0 < lat < 90
         y = vals[RADIUS] * math.log(math.tan(math.pi / 4 + math.radians(lat) / 2)) if ok else float('nan')
-        R.check(ok and abs(y - vals[MAXC]) < 0.01, 'K3-constants-agree', MAXLAT + '#projects-to-max-coordinate', site(MAXLAT),
-                'MERCATOR_MAX_LAT = %r projects to y = %.4f, max_coordinate_epsg3857 is %r: the projected square is not closed' % (lat, y, vals[MAXC]),
-                detail='R*ln(tan(pi/4 + lat/2)) = %.6f' % y)
+        # the constant is given in the fixed-point resolution of osmium::Location (1e-7 degree): it must be the representable latitude
+        # nearest to the edge of the square, i.e. within half a resolution step (times dy/dlat = R / cos(lat)) of max_coordinate
+        tol = (0.5e-7 * math.pi / 180.0) * vals[RADIUS] / math.cos(math.radians(lat)) + 0.01 if ok else 0.0
+        R.check(ok and abs(y - vals[MAXC]) <= tol, 'K3-constants-agree', MAXLAT + '#projects-to-max-coordinate', site(MAXLAT),
+                'MERCATOR_MAX_LAT = %r projects to y = %.4f, max_coordinate_epsg3857 is %r (allowed distance: half a 1e-7 degree step = %.4f m): '
+                'the projected square is not closed' % (lat, y, vals[MAXC], tol),
+                detail='R*ln(tan(pi/4 + lat/2)) = %.6f, |y - max| = %.4f m <= %.4f m' % (y, abs(y - vals[MAXC]), tol))
 
 
 # ================================================================================================ K4
